@@ -48,6 +48,7 @@ def step (s : DState) (toks : List String) : DState × String :=
   -- inject stream (trace written by `harness/c19 exec inject`)
   | "src" :: _ => (s, "ok")
   | "feat" :: _ => (s, "ok")
+  | "row" :: _ => (s, "ok")
   | ["begin", which] => ({ s with cur := some (which, {}) }, "ok")
   | [tag, name, image, cmd, args, ports, digest] =>
     match s.cur with
